@@ -27,10 +27,15 @@ class Env:
 
         vocab.register_all()
         set_cache(NoCache())
-        set_store(MemoryStore())
+        self.store = MemoryStore()
+        self.resources = {"res.txt": b"RES-TEXT", "dir/n.json": b"42", "dir/sub/b.bin": b"\x00\x01bin"}
+        for k, v in self.resources.items():
+            self.store.store(k, v, {})
+        set_store(self.store)
         S._vars = copy.deepcopy(default_vars or {})
         self.default_vars = copy.deepcopy(default_vars or {})
         self.ref = R.RefInterp(default_vars=self.default_vars)
+        self.ref.resource_lookup = lambda k: self.resources.get(k)
         self._ref_real = {}
         self._ref_interp = {}
         self.counters = {}
@@ -203,6 +208,9 @@ EXTENSIONS = ["add-1", "cat-x", "ident", "mulf-2", "flagged-t", "let-v1-q/getvar
 
 def family(rnd, g, base=None):
     """a target query and queries related to it: prefixes, extensions, link sub-queries, respellings"""
+    if base is None and rnd.random() < 0.12:
+        # a transformation of a resource read from the (fixed) store contents
+        base = rnd.choice(["res.txt", "dir/n.json", "-R/dir/sub/b.bin", "nokey.txt"]) + "/-/" + g.query(0, first=False, max_len=3)
     t = base or g.query(0)
     fam = [t]
     fam += prefixes_of(t)[1:]
